@@ -194,8 +194,8 @@ def run(scenario):
                             ctx['same_keys'].add(sha(data))
         w.monitors.append(KeyAgreement())
         ctx['handlers'] = {'tamper': ctx['tamperer']}
-        # a peer that pads more than the minimum: some protected datagrams are re-sealed in flight (same payloads, same keys, a fresh IV and
-        # 1-15 extra blocks of padding).  "For every payload list ... a protected message parses back under the same keys"
+        # a peer that pads more than the minimum: some protected datagrams are re-sealed in flight (same payloads, same keys, a fresh IV,
+        # 0-15 extra blocks of padding and Padding octets of any value).  "For every payload list ... a protected message parses back under the same keys"
         from sim.interpose import Interposer
         ip = ctx['ip'] = Interposer(w, tap)
         ctx['repadded'] = {}
@@ -211,7 +211,9 @@ def run(scenario):
             try:
                 a, e = (s.keys['ai'], s.keys['ei']) if h['I'] else (s.keys['ar'], s.keys['er'])
                 new = R.sk_seal({'spi_i': h['spi_i'], 'spi_r': h['spi_r'], 'exch': h['exch'], 'I': h['I'], 'R': h['R'], 'id': h['id']}, pls, s.suite, a, e,
-                                bytes(rr.getrandbits(8) for _ in range(16)), pad_extra=rr.choice([1, 2, 5, 15]))
+                                bytes(rr.getrandbits(8) for _ in range(16)), pad_extra=rr.choice([0, 0, 1, 2, 5, 15]),
+                                pad_fill=rr.choice([None, lambda n: bytes(rr.getrandbits(8) for _ in range(n)), lambda n: b'\xff' * n,
+                                                    lambda n: bytes([n] * n), lambda n: bytes(range(1, n + 1))]))
                 R.sk_open(new, s.suite, a, e)
             except Exception:
                 return None
